@@ -78,7 +78,11 @@ def run_case(ctx, mr, case):
             idxs = sorted(rng.sample(range(8), len(images)))
             parts = {i: images[k][0] for k, i in enumerate(idxs)}
             gaps = {i: rng.choice([0, 1, 5]) for i in idxs}
-            cci, cinfo = P.build_cci(parts, gaps=gaps, media_id=rng.getrandbits(64) | 1)
+            order = list(idxs)
+            if rng.random() < 0.4:
+                rng.shuffle(order)        # file order differs from table order
+            cci, cinfo = P.build_cci(parts, gaps=gaps, media_id=rng.getrandbits(64) | 1, order=order,
+                                     first_unit=rng.choice([0x20, 0x20, 0xB, 0xC, 0x1F, 0x21, 0x100]))
             start = rng.choice([0, 0, 0x200])
             bio = io.BytesIO(b'\x11' * start + cci)
             bio.seek(start)
@@ -140,7 +144,8 @@ def run_case(ctx, mr, case):
             from pyctr.type.cdn import CDNReader
             mode = rng.choice(['ticket', 'enc', 'dec'])
             cki = rng.randrange(6)
-            upper = set(i for i in idxs if rng.random() < 0.4)
+            upper = set(c['id'] for c in conts if rng.random() < 0.4)
+            ctx.stat('cdn_upper_names', len(upper))
             sub = rng.choice(['', 'a/b'])
             info = P.write_cdn_dir(fsobj, conts, title_id=tid, titlekey=titlekey, common_key_x=ckx, common_key_index=cki, present=present,
                                    upper_case_names=upper, with_ticket=(mode == 'ticket'), subdir=sub)
